@@ -455,7 +455,8 @@ func emptyApplies(src, kind string) bool {
 	case "json", "yaml", "toml", "cue":
 		return true
 	case "flag", "pflag":
-		return kind == "set"
+		// a flag that appears with the empty value sets its leaf (to the empty collection), it is not "not given"
+		return kind == "set" || kind == "strs"
 	case "env":
 		// a variable that is present with the empty value sets a collection leaf to the empty collection
 		switch kind {
@@ -759,7 +760,7 @@ func (r *srcRun) runFlags(which string) {
 		if l.Pat == "alias" || l.Pat == "both" || l.Pat == "bothempty" {
 			args = append(args, "--"+flagName(l.FlagAlias)+"="+text)
 		}
-		if l.Pat == "empty" && l.Kind == "set" && r.c.Garbage == "" {
+		if l.Pat == "empty" && emptyApplies(which, l.Kind) && r.c.Garbage == "" {
 			args = append(args, "--"+prim+"=")
 		}
 		if l.Pat == "repeat" {
